@@ -264,7 +264,11 @@ pub fn text_of(dim: &str, idx: &[usize]) -> String {
         "keywords" | "tfields" => idx.iter().map(|&i| if i % 5 == 4 { al[i].to_string() } else { format!("{}-{}", al[i], words[(i * 3 + 1) % words.len()]) }).collect(),
         _ => idx.iter().map(|&i| al[i].to_string()).collect(),
     };
-    let body = list.join("-");
+    wrap(dim, &list.join("-"))
+}
+
+/// a list body in its grammatical position
+fn wrap(dim: &str, body: &str) -> String {
     let dash = if body.is_empty() { "" } else { "-" };
     match dim {
         "variants" => format!("en{}{}", dash, body),
@@ -276,6 +280,90 @@ pub fn text_of(dim: &str, idx: &[usize]) -> String {
         "tfields" => format!("en-t{}{}", dash, body),
         _ => format!("en-x{}{}", dash, body),
     }
+}
+
+// ------------------------------------------------------------------------------------------
+// wide counts: the element counts at which an integer type overflows or a size cap sits
+// ------------------------------------------------------------------------------------------
+
+/// n around every power of two from 64 to 1024 [65536]: a counter, an index or a length kept in a
+/// `u8` / `u16`, a 1 KiB / 4 KiB / 64 KiB cap on the input or output
+pub fn wide_counts(quick: bool) -> Vec<usize> {
+    let tops: &[usize] = if quick { &[64, 128, 256, 512, 1024] } else { &[64, 128, 256, 512, 1024, 4096, 65536] };
+    tops.iter().flat_map(|t| [t - 1, *t, t + 1]).collect()
+}
+
+/// at least `n` distinct valid elements of the dimension, sorted ascending (fewer when the
+/// dimension has fewer: 936 keyword keys, 260 tfield keys)
+fn wide_elems(dim: &str, n: usize) -> Vec<String> {
+    let mut v: Vec<String> = match dim {
+        "variants" | "tlang_variants" => (0..n).map(|i| format!("v{:07}", (i * 7919 + 1) % 10_000_000)).collect(),
+        "attributes" | "keyword_values" | "tfield_values" => (0..n).map(|i| format!("w{:06}", (i * 6007 + 1) % 1_000_000)).collect(),
+        "keywords" => {
+            let mut k = vec![];
+            for a in (b'a'..=b'z').chain(b'0'..=b'9') {
+                for b in b'a'..=b'z' {
+                    k.push(format!("{}{}", a as char, b as char));
+                }
+            }
+            k
+        }
+        "tfields" => {
+            let mut k = vec![];
+            for a in b'a'..=b'z' {
+                for d in b'0'..=b'9' {
+                    k.push(format!("{}{}", a as char, d as char));
+                }
+            }
+            k
+        }
+        _ => (0..n).map(|i| format!("p{:06}", (i * 4973 + 1) % 1_000_000)).collect(),
+    };
+    v.sort();
+    v.dedup();
+    v.truncate(n);
+    v
+}
+
+/// Space E2.count.wide: for every dimension and every wide n the list ascending, descending and
+/// ascending with its first element repeated at the end; the variant lists also followed by a
+/// script / region (ill-formed: a position that has wrapped around would accept it).
+pub fn wide_inputs(quick: bool, locales: bool) -> Vec<Vec<u8>> {
+    let mut out = std::collections::BTreeSet::new();
+    for dim in DIMS {
+        if !locales && dim != "variants" {
+            continue;
+        }
+        for n in wide_counts(quick) {
+            let el = wide_elems(dim, n);
+            if el.len() < n {
+                continue;
+            }
+            let item = |i: usize| -> String {
+                match dim {
+                    "keywords" | "tfields" => if i % 5 == 4 { el[i].clone() } else { format!("{}-w{:05}", el[i], i) },
+                    _ => el[i].clone(),
+                }
+            };
+            let asc: Vec<String> = (0..n).map(item).collect();
+            let desc: Vec<String> = (0..n).rev().map(item).collect();
+            let mut rep = desc.clone();
+            rep.push(item(n - 1));
+            for l in [&asc, &desc, &rep] {
+                out.insert(wrap(dim, &l.join("-")).into_bytes());
+            }
+            out.insert(wrap(dim, &asc.join("-")).to_ascii_uppercase().replace('-', "_").into_bytes());
+            if dim == "variants" {
+                for tail in ["Latn", "US", "419", "en"] {
+                    out.insert(format!("{}-{}", wrap(dim, &asc.join("-")), tail).into_bytes());
+                }
+            }
+            if dim == "tlang_variants" {
+                out.insert(format!("en-t-de-{}-Latn", asc.join("-")).into_bytes());
+            }
+        }
+    }
+    out.into_iter().collect()
 }
 
 /// Space E2.count: every (dimension, spec) as text; the asc / desc / scr shapes also in upper case
